@@ -425,7 +425,7 @@ def main(ck):
     open(os.path.join(proj, "go.mod"), "w").write(go_mod(repo, verif))
     shutil.copy(os.path.join(repo, "go.sum"), os.path.join(proj, "go.sum"))
     t0 = time.time()
-    rc, out = vcheck.sh(["go", "build", "-tags", "verif", "-o", "engine", "."], cwd=proj, env=vcheck.go_env(), timeout=1500)
+    rc, out = vcheck.sh(["go", "build", "-tags", "verif c16proj", "-o", "engine", "."], cwd=proj, env=vcheck.go_env(), timeout=1500)
     ck.cov["go_build_wall_s"] = round(time.time() - t0, 1)
     ck.cov["generated_files_in_one_package"] = len(ctors)
     if rc != 0:
